@@ -87,3 +87,19 @@ def trusted(prop):
                 "lean/DiscretModel/Model/RustPrelude.lean; the 15 equalities of Lemmas/RoomKernelEq.lean tie the regenerated kernel "
                 "(Room::can, is_admin, is_user_valid_at, has_user, add_*; Authorisation::can, get_right_at, …; EntityRight::new) to Model/Room.lean"]
     return res
+
+
+def technique(prop):
+    """sentence appended to the MANIFEST `technique` of the properties that carry regenerated obligations"""
+    parts = []
+    if prop in ROOM_PROPS:
+        parts.append("T7: the room decision kernel (Room::can/is_admin/is_user_valid_at/has_user/add_*, Authorisation::can/get_right_at/…, "
+                     "EntityRight::new) is re-translated from room.rs on every run and proved equal to the model (Lemmas/RoomKernelEq.lean)")
+    if prop in INGEST_PROPS:
+        parts.append("T8: validate_node / validate_node_deletions / validate_edge_deletions are re-translated from authorisation_service.rs on "
+                     "every run and proved equal to the model's decisions (Lemmas/IngestKernelEq.lean)")
+    if prop in LWW_PROPS:
+        parts.append("T9: the last-writer-wins chain of Node::filter_existing is re-read from node.rs on every run and proved to be the model's "
+                     "filter (Lemmas/LwwEq.lean)")
+    return (" + model fragments regenerated from the Rust source by a translator, with Lean equalities to the hand-written model as proof "
+            "obligations of this check (" + "; ".join(parts) + ")") if parts else ""
